@@ -74,8 +74,15 @@ def _models(ctx, log=None):
         if log is not None:
             log.append('product')
         return Opaque('concatenated')
+    def is_type_of(cls, natives):
+        def f(v):
+            if isinstance(v, Rec):
+                return bool(v.f.get('cls')) and ctx.res.is_subclass(v.f['cls'], XLT + cls)
+            return isinstance(v, natives) and not (cls != 'Boolean' and isinstance(v, bool) and natives == (str,))
+        return f
     return {XLT + 'Number.is_type': number_is_type, XLT + 'Blank.is_blank': is_blank, XLERR + 'ExcelError.is_error': is_error,
-            'ext:pandas.concat': concat}
+            XLT + 'Text.is_type': is_type_of('Text', (str,)), XLT + 'Boolean.is_type': is_type_of('Boolean', (bool,)),
+            XLT + 'Blank.is_type': is_type_of('Blank', (type(None),)), 'ext:pandas.concat': concat}
 
 
 def _isinst(ctx):
